@@ -565,15 +565,16 @@ impl C05 {
             core.want_steps = true;
             // observe every step of the sequential run and of the first parallel run
             core.observer = if tag != "par2" { Some(Box::new(StepObs { budget: 1 << 21 })) } else { None };
-            if tag == "par2" && core.dec.coin("pool", 1, 2) {
+            if tag == "par2" && core.dec.coin("pool", 1, 3) {
                 // second parallel execution: the simulated worker pool (W real threads, one
                 // running at a time, decider-chosen switches at task boundaries and seams)
                 // (small pools mostly: interleavings need few workers, threads cost time; the
                 // full 1..16 range is covered by the sequentialised model and now and then here)
-                let wp = match core.dec.choose("poolW.kind", 8) {
+                let wp = match core.dec.choose("poolW.kind", 16) {
                     0 => w.max(2),
                     1 => 2 + core.dec.choose("poolW.big", 15),
-                    _ => 2 + core.dec.choose("poolW", 3),
+                    2..=4 => 3 + core.dec.choose("poolW", 2),
+                    _ => 2,
                 };
                 core.workers = wp;
                 core.pool_workers = wp;
